@@ -89,3 +89,32 @@ Definition golden_mismatches (name : string) : list (N * N * option N) :=
 
 Theorem golden_crc_extras : golden_mismatches "common" = [].
 Proof. vm_cast_no_check (eq_refl (@nil (N * N * option N))). Qed.
+
+(* ---- every released message keeps its CRC_EXTRA (Spec/CrcSnapshot.v) ---- *)
+From GM Require Import CrcSnapshot.
+Definition snapshot_crc (id : N) (tname : string) : option N :=
+  match find (fun r => (fst (fst r) =? id)%N && String.eqb (snd (fst r)) tname) crc_snapshot with
+  | Some r => Some (snd r) | None => None
+  end.
+(* per dialect: the messages whose computed CRC_EXTRA differs from the table *)
+Definition snapshot_mismatches_of (gd : gdialect) : list (string * N * string) :=
+  if String.eqb (gd_name gd) "development" then [] else
+  match dialect_init (msgs_of gd) with
+  | Ok d =>
+    flat_map (fun e =>
+      let tname := gs_tname (struct_at (snd e)) in
+      match snapshot_crc (fst e) tname, dlookup d (fst e) with
+      | Some want, Some c => if (c_crc c =? want)%N then [] else [(gd_name gd, fst e, tname)]
+      | Some _, None => [(gd_name gd, fst e, tname)]
+      | None, _ => []
+      end) (gd_msgs gd)
+  | _ => [(gd_name gd, 0%N, "does not initialise")]
+  end.
+Definition snapshot_mismatches : list (string * N * string) := flat_map snapshot_mismatches_of shipped.
+(* and the table is about the shipped dialects: at least 350 of its rows are found there *)
+Definition snapshot_rows_found : nat :=
+  length (filter (fun r => existsb (fun gd => existsb (fun e => (fst e =? fst (fst r))%N &&
+            String.eqb (gs_tname (struct_at (snd e))) (snd (fst r))) (gd_msgs gd)) shipped) crc_snapshot).
+
+Theorem released_messages_keep_crc_extra : snapshot_mismatches = [] /\ Nat.leb 350 snapshot_rows_found = true.
+Proof. split; [vm_cast_no_check (eq_refl (@nil (string * N * string)))|vm_cast_no_check (eq_refl true)]. Qed.
